@@ -52,10 +52,25 @@ def plan(tier):
     for r in rs:
         wit = [W_OK]
         qs.append(Q(P, 1, r, wit=wit, k=4, est_gb=4))
-    # typed access: decimal text of up to 3 digits with optional sign -> the number
-    for tpl in (['--o', 'DDD'], ['--o=SDD'], ['--m', 'DD', '--m=SD']):
-        pass
-    return Runner(P, tier, [parser_unit('parser', qs, base_corpus(P, decls=[1], envdecls=[]))],
-                  bounds=dict(BOUNDS_NOTE, renderings='%d renderings enumerated outside the solver; inside each every value byte is symbolic (values of 0..2 or 0..3 bytes)' % len(qs)),
-                  outside=OUTSIDE + ['typed access as<T>() (decimal parsing lives in the stream model; not claimed)'], assumptions=ASSUME + [
+    # typed access: decimal text of 1..NDIG digits (leading zeros included) with optional sign -> the number, through the real as<T>()
+    tq, tcorpus = [], []
+    ndig = 4 if th else 3
+    for shape, what in ((0, '--o=<sign><digits>: as<int>, as<long long>'), (1, '-p <digits>: as<int>, as<unsigned>'), (2, '--m <digits> -q=<sign><digits>: as<int>(name, i)')):
+        d = ['-DSHAPE=%d' % shape, '-DNDIG=%d' % ndig]
+        one = lambda sg, n, ds: [sg, n] + [ord(c) for c in (ds + '0000')[:ndig]]
+        if shape == 2:
+            prof = [one(0, ndig, '0120') + one(1, ndig, '0990'), one(0, 1, '7') + one(2, 2, '08'), one(0, 2, '10') + one(0, 1, '0')]
+        else:
+            prof = [one(1 if shape == 0 else 0, ndig, '0120'), one(0, 1, '7'), one(2 if shape == 0 else 0, 2, '08'), one(0, ndig, '9999')]
+        wits = ['zero-padded decimal text'] + (['negative number'] if shape != 1 else [])
+        tq.append(Query('typed_shape%d' % shape, d, wits, unwind=2, hardcap=40, est_gb=3, profile=prof, timeout=3000 if th else 800,
+                        sample={'claim': 'typed access returns the number whose decimal text was given', 'command_line': what,
+                                'symbolic': 'sign, number of digits (1..%d), every digit' % ndig}))
+        tcorpus += [(d, v) for v in prof]
+    typed = Unit('typed', 'harness/C02/h_typed.cpp', 'harness/C02/cb_typed.c', repo_srcs=OPTION_SRCS, caps={'str': 16, 'vec': 5, 'map': 5, 'ss': 16, 're': 8},
+                 cxx_defs=['-DNITRO_VERIF_NO_MESSAGES'], queries=tq, corpus=tcorpus, wrap=['getenv'], leak_on_unwind=True)
+    return Runner(P, tier, [parser_unit('parser', qs, base_corpus(P, decls=[1], envdecls=[])), typed],
+                  bounds=dict(BOUNDS_NOTE, typed_access='1..%d decimal digits, optional sign, three command-line shapes' % ndig, renderings='%d renderings enumerated outside the solver; inside each every value byte is symbolic (values of 0..2 or 0..3 bytes)' % len(qs)),
+                  outside=OUTSIDE + ['typed access for numbers of more than %d digits, floating point and non-decimal text ("returns the number whose DECIMAL text was given")' % ndig], assumptions=ASSUME + [
+                      'typed access: the integer extraction operator of std::istream is the vstd model (decimal / octal / hexadecimal / prefix-detecting according to basefield, as [facet.num.get.virtuals] specifies); the replay runs real libstdc++',
                       'a value given as a SEPARATE token is assumed to be a value token (first byte not a dash): C04 defines the other case as "missing value"'])
